@@ -257,6 +257,7 @@ def main(argv=None):
     ap.add_argument('--seed', type=int, default=None)
     ap.add_argument('--replay', default=None)
     ap.add_argument('--par', type=int, default=NCPU)
+    ap.add_argument('--dump-unlisted', default=None, help='development aid: write every unlisted fail (mech, where, key) to this file')
     a = ap.parse_args(argv)
     seed = a.seed if a.seed is not None else int(os.environ.get('VERIF_SEED') or 0)
     pid = a.property.upper()
@@ -273,6 +274,10 @@ def main(argv=None):
     agg = Agg()
     for job, r, note in res:
         agg.add(job, r, note)
+    if a.dump_unlisted:
+        kf = findings.load()
+        with open(a.dump_unlisted, 'w') as f:
+            json.dump([fl for fl in agg.fails if findings.match(kf, pid, fl) is None], f, indent=1, ensure_ascii=False, default=str)
     return decide(pid, checker, agg, a.tier, seed, t0)
 
 
